@@ -10,6 +10,7 @@ import (
 	"io"
 	"math"
 	"net"
+	"sync"
 	"time"
 
 	"github.com/pion/stun/v3"
@@ -32,6 +33,8 @@ func noDeadline() time.Time {
 type TCPAllocation struct {
 	connAttemptCh chan *connectionAttempt
 	acceptTimer   *time.Timer
+	closeCh       chan struct{}
+	closeOnce     sync.Once
 	allocation
 }
 
@@ -40,6 +43,7 @@ func NewTCPAllocation(config *AllocationConfig) *TCPAllocation {
 	alloc := &TCPAllocation{
 		connAttemptCh: make(chan *connectionAttempt, 10),
 		acceptTimer:   time.NewTimer(time.Duration(math.MaxInt64)),
+		closeCh:       make(chan struct{}),
 		allocation: allocation{
 			client:      config.Client,
 			relayedAddr: config.RelayedAddr,
@@ -363,6 +367,13 @@ func (a *TCPAllocation) AcceptTCPWithConn(conn net.Conn) (*TCPConn, error) {
 			Addr: a.Addr(),
 			Err:  newTimeoutError("i/o timeout"),
 		}
+	case <-a.closeCh:
+		return nil, &net.OpError{
+			Op:   "accept",
+			Net:  a.Addr().Network(),
+			Addr: a.Addr(),
+			Err:  net.ErrClosed,
+		}
 	}
 }
 
@@ -383,6 +394,8 @@ func (a *TCPAllocation) SetDeadline(t time.Time) error {
 // Any blocked Accept operations will be unblocked and return errors.
 // Any opened connection via Dial/Accept will be closed.
 func (a *TCPAllocation) Close() error {
+	a.closeOnce.Do(func() { close(a.closeCh) })
+
 	a.refreshAllocTimer.Stop()
 	a.refreshPermsTimer.Stop()
 
